@@ -316,6 +316,7 @@ Q2(row)    == [a \in 1..Len(row) |-> 2 * row[a] + 7]        \* some other charge
 SelfVal == [na |-> ens.na, nb |-> ens.nb, C |-> ens.C, Q |-> ens.Q, W |-> ens.W]
 ListVal(ms) == [na |-> ms[1].na, nb |-> ms[1].nb, C |-> [i \in 1..Len(ms) |-> ms[i].g],
                 Q |-> [i \in 1..Len(ms) |-> ms[i].q], W |-> [i \in 1..Len(ms) |-> 250 * i]]
+CopyCtor(n) == (n = 0 \/ ~ens.S.made) /\ NewCopy(n)            \* an explicit n_conformers with the first copy only
 ExtendOther(ms) == SameNa(ms, ms[1].na) /\ ExtendEns(ListVal(ms), "other")
 ConfIdx == 1..MaxConf                                      \* constant bounds: TLC then reports coverage per action
 Stacks(S) == UNION {[1..k -> S] : k \in 1..MaxConf}
@@ -325,7 +326,7 @@ Next ==
   \/ \E k \in NaSet \cup {0}, n \in 0..2, a \in {0, 3} : NewAtoms("list", k, a, FillC(k, n), FillQ(k, n))
   \/ \E m \in PoolSet, n \in 0..2, a \in {0, 3} : NewMol(m, n, a, FillC(m.na, IF n = 0 THEN 1 ELSE n), FillQ(m.na, IF n = 0 THEN 1 ELSE n))
   \/ \E ms \in Lists(3), n \in {0, 2} : NewList(ms, n)
-  \/ \E n \in {0, 1} : (n = 0 \/ ~ens.S.made) /\ NewCopy(n)       \* an explicit n_conformers with the first copy only
+  \/ \E n \in {0, 1} : CopyCtor(n)
   \/ \E m \in PoolSet : AppendC(m)
   \/ \E ms \in Lists(2) : ExtendList(ms)
   \/ ExtendEns(SelfVal, "self")
